@@ -48,6 +48,7 @@ class G:
         self.ds, self.stored, self.pending, self.ext = set(), set(), set(), set(range(NSLOT))
         self.runs = {0, 1}
         self.groups = []          # ids that share one artifact
+        self.foreign = set()      # slots whose registered dataset carries the SOURCE repository's id (transfer_from, ingest_zip)
 
     def note(self, op):
         k = op[0]
@@ -62,20 +63,23 @@ class G:
         elif k == "transfer":
             l = op[1]
             if l and len(set(l)) == len(l) and all(d not in self.ds and run_of(d) in self.runs for d in l):
-                self.ds |= set(l); self.stored |= set(l)
+                self.ds |= set(l); self.stored |= set(l); self.foreign |= set(l)
         elif k == "mput":
             for d, _ in op[1]:
                 self.note(["put", d, 0])
         elif k in ("ingestmulti", "ingestzip"):
             l = op[-1]
-            if l and len(set(l)) == len(l) and all(d not in self.ds and run_of(d) in self.runs for d in l):
+            if l and len(set(l)) == len(l) and all(d not in self.ds and run_of(d) in self.runs for d in l) \
+                    and (k == "ingestzip" or len({run_of(d) for d in l}) == 1):
                 self.ds |= set(l); self.stored |= set(l)
                 self.groups.append(list(l))
+                if k == "ingestzip":
+                    self.foreign |= set(l)
                 if op[:2] == ["ingestmulti", "move"]:
                     self.ext.discard(l[0])
         elif k == "prune":
             t = set(op[1]) & self.ds
-            self.ds -= t; self.stored -= t
+            self.ds -= t; self.stored -= t; self.foreign -= t
             if t:
                 self.pending.clear()
         elif k == "unstore":
@@ -89,11 +93,22 @@ class G:
         elif k == "removeruns":
             if op[1] in self.runs:
                 t = {d for d in self.ds if run_of(d) == op[1]}
-                self.ds -= t; self.stored -= t
+                self.ds -= t; self.stored -= t; self.foreign -= t
                 self.runs.discard(op[1])
                 self.pending.clear()
         elif k == "emptytrash":
             self.pending.clear()
+
+
+def one_run(l, free):
+    """The refs of ONE FileDataset must share their run: keep the refs of the first ref's run, topped up from the free slots."""
+    same = [d for d in l if run_of(d) == run_of(l[0])]
+    for d in free:
+        if len(same) >= 2:
+            break
+        if d not in same and run_of(d) == run_of(l[0]):
+            same.append(d)
+    return same
 
 
 def gen_scenario(rng: random.Random, kind: str):
@@ -142,7 +157,11 @@ def gen_scenario(rng: random.Random, kind: str):
             f = free()
         l = rng.sample(f, min(len(f), rng.choice([2, 2, 3])))
         l.sort(key=lambda d: d not in g.ext)
-        mk = ["ingestzip", l] if rng.random() < 0.5 else ["ingestmulti", rng.choice(["copy", "move"]), l]
+        if rng.random() < 0.5:
+            mk = ["ingestzip", l]
+        else:
+            l = one_run(l, f)
+            mk = ["ingestmulti", rng.choice(["copy", "move"]), l]
         pre.append(mk); g.note(mk)
         tg = rng.sample(l, rng.choice([1, 1, len(l) - 1, len(l)]) or 1)
         if g.stored - set(l) and rng.random() < 0.4:
@@ -158,9 +177,11 @@ def gen_scenario(rng: random.Random, kind: str):
     elif kind in SHARED:
         f = free()
         l = rng.sample(f, min(len(f), rng.choice([2, 2, 3]))) if f else [rng.randrange(NSLOT)]
-        if rng.random() < 0.1:
-            l.append(rng.randrange(NSLOT))
+        if rng.random() < 0.1 and g.stored - g.foreign:
+            l.append(rng.choice(sorted(g.stored - g.foreign)))      # a dataset that is already there (own id): the whole call is refused
         l.sort(key=lambda d: d not in g.ext)       # the one staging file that is ingested is the first ref's
+        if kind == "ingestmulti" and rng.random() < 0.9:
+            l = one_run(l, f)
         op = ["ingestzip", l] if kind == "ingestzip" else ["ingestmulti", rng.choice(["copy", "move"]), l]
         return {"pre": pre, "op": op, "follow": [[op]], "model": False}
     elif kind == "put":
@@ -171,7 +192,10 @@ def gen_scenario(rng: random.Random, kind: str):
         f = free()
         l = rng.sample(f, min(len(f), rng.choice([1, 2, 2, 3]))) if f else [rng.randrange(NSLOT)]
         if rng.random() < 0.08:
-            l.append(rng.randrange(NSLOT))
+            # stored already under an id of its own (refused) or a duplicate; never a dataset that already carries the source
+            # repository's id: transfer_from of a ref whose id is already registered re-stores / replaces it, which the model
+            # (ids identified with slots) does not describe
+            l.append(rng.choice(sorted((g.stored - g.foreign) | set(l)) or [0]))
         op = ["transfer", l]
     elif kind in ("prune", "unstore", "trash"):
         pool = sorted(g.stored) or list(range(NSLOT))
@@ -626,8 +650,8 @@ def sops(op, ord_=(), staged=None):
         return [f"SStore false {d} {200 + d} [{d}]" for d in op[1]]       # completed transfers of a pre-history only
     if k == "ingestmulti":
         l = op[2]
-        if not l or (staged is not None and l[0] not in staged):
-            return [REFUSED]
+        if not l or (staged is not None and l[0] not in staged) or len({run_of(d) for d in l}) > 1:
+            return [REFUSED]      # no staging file, or refs in different runs (FileDataset refuses: "must all share the same run")
         return [f"SStore {'true' if op[1] == 'move' else 'false'} {l[0]} {100 + l[0]} {nl(l)}"]
     if k == "ingestzip":
         return [f"SStore false {ZIPA} {ZIPV} {nl(op[1])}"]
@@ -801,7 +825,7 @@ def run(ctx: Ctx):
         scs, origins, ncorpus = [{"pre": j["pre"], "op": j["op"], "follow": j.get("follow") or follows_of(j["op"]),
                                   "model": j.get("model", True)}], ["replay"], 1
     else:
-        n = int(os.environ.get("VERIF_C08_N", "0")) or (24 if ctx.quick else 64)
+        n = int(os.environ.get("VERIF_C08_N", "0")) or (20 if ctx.quick else 64)
         for k in range(n):
             scs.append(gen_scenario(ctx.rng, KINDS[k % len(KINDS)]))
             origins.append(f"seed{ctx.seed}/{k}")
